@@ -172,6 +172,16 @@ def rng(e, ctx):
             dr = rng(d, Ctx(dg, ctx.env, ctx.enums, (), ctx.assume))
             if dr is not None:
                 lo, hi = max(lo, dr[0]), min(hi, dr[1])
+        elif hasattr(ctx.env, "monotone") and ctx.env.monotone(p[0]) is not None:
+            # a counter that only ever steps one way stays on its initial value's side
+            kind, d = ctx.env.monotone(p[0])
+            dg = getattr(ctx.env, "def_guard", {}).get(p[0], ("T",))
+            dr = rng(d, Ctx(dg, ctx.env, ctx.enums, (), ctx.assume))
+            if dr is not None:
+                if kind == "dec":
+                    hi = min(hi, dr[1])
+                else:
+                    lo = max(lo, dr[0])
     return (lo, hi)
 
 
